@@ -22,4 +22,4 @@ def run(chk):
     from .c18 import REFS as REPORT_REFS
     for mod, cls, name, src, what in REPORT_REFS:
         if (cls, name) == ("StrategyBase", "positions"):
-            check_equiv(chk, "C18.R1", mod, cls, name, src, "report-formula", "%s.%s: %s" % (cls, name, what), no_inline=("update", "get_transactions"), limit=14)
+            check_equiv(chk, "C18.R1", mod, cls, name, src, "report-formula", "%s.%s: %s" % (cls, name, what), no_inline=("update", "get_transactions"), limit=14, ignore_refresh=True)
